@@ -38,11 +38,11 @@ type c06Hist struct {
 
 func init() {
 	register(&Prop{ID: "C06", Run: c06Run,
-		Rule: "histories of Put (leaf / list / container values, incl. leafless containers) / Add / Populate over 4 layer names and path-safe paths of 1-3 components from a 5-key pool with 0-2 index groups (indices 0-3) per component, one write in five aimed at a position an earlier layer defines, into a later layer: Put of a nil leaf (at the leaf or a prefix), Populate with a nil value, or a sparse list write (index >= 1 into a list the later layer does not have, so its null padding covers the earlier items); generated against a scratch overlay so that at most a few steps fall outside the domain (those are skipped by the same decidable predicate at evaluation time); after every write the layer names and every layer's content (Layers()) are compared; after every write every layer's flattened leaves are also read back through the live overlay (Lookup of every path, LookupAny against the first layer that has the path, Search(all), Walk, Merged under alternating strategies against the reference fold); one write in six hands the overlay the very node object of an earlier write (then Merged under both strategies is read at once); reads (LayerNames, Lookup, LookupAny, Search with 4 predicate kinds, Walk with and without early stop, Merged with both list strategies (against the fold of the implementation's own Merge and, independently, against the reference merge of the property text folded over the per-layer AsMap values) + Serialize, Layers() snapshots re-read at the end) are interleaved. A case is non-trivial when at least two layers exist at the end and at least 3 writes were executed; distinct = distinct canonical case JSON (hash).",
+		Rule: "histories of Put (leaf / list / container values, incl. leafless containers) / Add / Populate over 4 layer names and path-safe paths of 1-3 components from a 5-key pool with 0-2 index groups (indices 0-3) per component, one write in five aimed at a position an earlier layer defines, into a later layer: Put of a nil leaf (at the leaf or a prefix), Populate with a nil value, or a sparse list write (index >= 1 into a list the later layer does not have, so its null padding covers the earlier items); generated against a scratch overlay so that at most a few steps fall outside the domain (those are skipped by the same decidable predicate at evaluation time); after every write the layer names and every layer's content (Layers()) are compared; after every write every layer's flattened leaves are also read back through the live overlay (Lookup of every path, LookupAny against the first layer that has the path, Search(all), Walk, Merged under alternating strategies against the reference fold); one write in six hands the overlay the very node object of an earlier write (then Merged under both strategies is read at once); reads (LayerNames, Lookup, LookupAny, Search with 4 predicate kinds, Walk with and without early stop, Merged with both list strategies (against the fold of the implementation's own Merge and, independently, against the reference merge of the property text folded over the per-layer AsMap values) + Serialize, Layers() snapshots re-read at the end) are interleaved; one history in three uses components that LOOK like a list-item reference but are member names (cpu[+1], a[-0], a[ 1], a[], a[x], a[0x1], non-ASCII digits, a[1]x; in write paths, in the member names of written containers, and in read paths derived from a known path by turning l[1] into l[+1]); after every write the value is read back from Layers() at the position the path names by the harness's own reading of the addressing scheme, and the layer's root may have gained no member but the one the first component names; Lookup / LookupAny are compared with that reading as well. A case is non-trivial when at least two layers exist at the end and at least 3 writes were executed; distinct = distinct canonical case JSON (hash).",
 		Assumptions: []string{
 			"domain: no write descends through an existing scalar (a null padding slot of a list, i.e. the nilLeaf singleton at an index step, is not a scalar written by the history and may be descended through), nor by a key step through an existing list (ensurePath's type assertion panics there); out-of-domain steps are skipped on both sides",
 			"Put / Add store the node they are given. Most writes pass fresh nodes; one write in six hands over the very node object of an earlier write again (the same list / container instance in two layers): its content at that moment is the value written, and from then on a write that would modify such an object through one of its positions (a path descending through it) is outside the domain and skipped on both sides — the value model cannot express aliasing",
-			"scalars are NaN-free and -0-free; keys are path-safe",
+			"scalars are NaN-free and -0-free; keys are path-safe: free of '.', and not ending in a list-item reference \"[\" ASCII decimal digits \"]\" (a component addresses a list item only when it ends in such groups; any other component, also one that merely resembles an item reference such as cpu[+1] or a[x], is a member name stored, reported and looked up as written)",
 			"Serialize clause: byte equality of OverlayDocument.Serialize with Merged().Serialize under yaml.v3 / encoding/json (external encoders, deterministic for a given value)",
 		}})
 	evals["C06"] = c06Eval
@@ -595,6 +595,16 @@ func c06Eval(c *Ctx, kind string, raw []byte) {
 			}
 			writes++
 			c.Dist("write:" + op.Op)
+			if c06HasLook(op) {
+				c.Dist("write:look-alike-component")
+			}
+			var layerBefore W = map[string]any{"m": map[string]any{}}
+			if b, ok := before[op.L]; ok {
+				layerBefore = b
+			}
+			if la, ok := after[op.L]; ok && !c06CheckWrite(c, op, layerBefore, la) {
+				return
+			}
 			if op.Op == "put" {
 				c.Dist("put:" + wireKind(op.V))
 				if wireKind(op.V) == "cont" && wireScalars(op.V) == 0 {
@@ -624,9 +634,12 @@ func c06Eval(c *Ctx, kind string, raw []byte) {
 			sent = append(sent, op)
 			obs = append(obs, names)
 		case "lookup":
-			var got, exp W
+			var got, exp, ref W
 			out, txt := guard(func() {
 				got = nodeWire(w.ov.Lookup(op.L, op.Path))
+				if lc, ok := w.ov.Layers()[op.L]; ok {
+					ref = c06RefAt(nodeWire(lc), op.Path)
+				}
 				if sh, ok := w.shadow[op.L]; ok {
 					exp = nodeWire(sh.Lookup(op.Path))
 				}
@@ -640,6 +653,7 @@ func c06Eval(c *Ctx, kind string, raw []byte) {
 				c.Dist("lookup:miss")
 			}
 			c.Direct("lookup-sees-only-that-layer", canon(got) == canon(exp), map[string]any{"op": op, "impl": got, "standalone": exp})
+			c.Direct("lookup-returns-what-the-layer-holds-at-that-position", canon(got) == canon(ref), map[string]any{"op": op, "Lookup": got, "layer holds there": ref})
 			sent = append(sent, op)
 			obs = append(obs, got)
 		case "lookupAny":
@@ -665,6 +679,14 @@ func c06Eval(c *Ctx, kind string, raw []byte) {
 					c.Dist("lookupAny:miss")
 				}
 				c.Direct("lookupAny-first-layer-with-hit", n == first, map[string]any{"op": op, "impl": got, "first": nodeWire(first)})
+				var ref W
+				ls := w.ov.Layers()
+				for _, l := range w.ov.LayerNames() {
+					if ref = c06RefAt(nodeWire(ls[l]), op.Path); ref != nil {
+						break
+					}
+				}
+				c.Direct("lookupAny-returns-what-the-first-layer-with-that-position-holds", canon(got) == canon(ref), map[string]any{"op": op, "LookupAny": got, "expected": ref})
 			})
 			if !c.Direct("no-panic(lookupAny)", out == "ok", txt) {
 				return
@@ -923,6 +945,9 @@ func c06GenPath(r *rand.Rand, maxComp int) string {
 				c += fmt.Sprintf("[%d]", r.Intn(4))
 			}
 		}
+		if c06Look && r.Intn(5) == 0 {
+			c = c06LookAlike(r, c) // c06_look.go
+		}
 		comps[i] = c
 	}
 	return strings.Join(comps, ".")
@@ -950,6 +975,15 @@ func c06Run(c *Ctx) {
 
 func c06GenHist(r *rand.Rand, g *DocGen, maxWrites int) c06Hist {
 	w := newC06World() // scratch overlay: keeps the generated history inside the domain
+	// one history in three uses components that look like a list-item reference but are member names (c06_look.go),
+	// in paths and as member names of the container values written
+	c06Look = r.Intn(3) == 0
+	defer func() { c06Look = false }()
+	if c06Look {
+		g2 := *g
+		g2.Keys = append(append([]string{}, c06Keys...), c06LookAlike(r, pick(r, c06Keys)), c06LookAlike(r, pick(r, c06Keys)))
+		g = &g2
+	}
 	var ops []c06Op
 	var known []string // paths written so far (for aimed reads)
 	nLayers := 3 + r.Intn(2)
@@ -1087,6 +1121,9 @@ func c06GenHist(r *rand.Rand, g *DocGen, maxWrites int) c06Hist {
 	}
 	genRead := func() c06Op {
 		somePath := func() string {
+			if c06Look && len(known) > 0 && r.Intn(4) == 0 {
+				return c06LookRead(r, pick(r, known))
+			}
 			if len(known) > 0 && r.Intn(5) > 0 {
 				p := pick(r, known)
 				switch r.Intn(6) {
